@@ -124,10 +124,10 @@ def run(ctx):
     if key(gate["unset"]) != key(gate["1.99"]):
         a, b = set(key(gate["unset"])), set(key(gate["1.99"]))
         ctx.fail("UnsetNotNewest", "with no version configured the diagnostics differ from those of a far-future version: %s" % sorted(a ^ b)[:3], {})
-    if len(api_seen) < 15 or not any(i >= 17 for i in api_seen.values()):
+    if (len(api_seen) < 15 or not any(i >= 17 for i in api_seen.values())) and not ctx.violations:
         raise vlib.Infra("gate run is vacuous: %d APIs recognised" % len(api_seen))
     # gating must actually happen somewhere (anti-vacuity): the oldest target sees fewer recommendations than the newest
-    if len(gate[vstrs[0]]) >= len(gate["unset"]):
+    if len(gate[vstrs[0]]) >= len(gate["unset"]) and not ctx.violations:
         raise vlib.Infra("no version-gated diagnostic in the corpus")
     st, tr = vlib.tlc_states_total(ctx)
     cov = {
